@@ -26,7 +26,7 @@ ASSUMPTIONS = ["node ids are 0..N-1 and inputs are columns of X (the compiled co
 TRUSTED = ["models: coq/theories/Net.v NetOrder.v NetForward.v; check functions coq/theories/C12Check.v (instance K=V=Qc)",
            "independent Python reference evaluator and predicates: harness/props/_netcommon.py"]
 THEORIES = ["Base", "Net", "NetAlgebra", "NetOrder", "NetForward", "NetProofs", "NetProofs2", "NetOrderProofs",
-            "NetMLPProofs", "NetForwardProofs", "NetForwardProofs2", "C12Check", "NetForwardQc"]
+            "NetMLPProofs", "NetForwardProofs", "NetForwardProofs2", "C12Check", "NetForwardQc", "NetMLPProofs2"]
 
 IMPORTS = "From TF Require Import Base Net NetAlgebra NetOrder NetForward C12Check."
 SIG_SOFTMAX = "softmax:per-schedule-group:outputs-with-different-source-sets"
